@@ -172,6 +172,7 @@ def run(tier, v):
         for fam in ("dup", "common", "start", "cookie"):
             heads = []
             vlib.tlc("MC_C05", pid=PID, workers=8, tag_sink=lambda tag, o: heads.append(o), env={"VERIF_FAM": fam, "VERIF_MAXLEN": 2}, timeout=1800, heap="8g", coverage=False)
+            heads.sort(key=lambda h: (h["kind"], h["lines"]))
             if tier != "thorough":
                 heads = heads[:: max(1, len(heads) // 250)]
             for kind in ("req", "resp"):
